@@ -239,6 +239,12 @@ def judge_call(rec, out):
         out["violations"].append(dict(key="C04/no-score-exceeds-quantile", msg=f"{where}: no calibration score has a "
                                       f"weighted share above q={info['q']}", witness=info))
         return info
+    if len(rec["lower"]) != len(rec["w"]) or len(rec["upper"]) != len(rec["w"]):
+        out["violations"].append(dict(
+            key="C04/published-bounds-not-one-per-unit",
+            msg=f"{where}: {len(rec['w'])} nonreporting units but {len(rec['lower'])} lower / {len(rec['upper'])} upper "
+                f"bounds returned (bounds attached by row label instead of by unit?)", witness=dict(n=len(rec["w"]))))
+        return info
     ok = None
     for c in cands:
         lo = publish(rec["lo_raw"], c, rec["w"], rec["counted"], -1)
@@ -326,6 +332,14 @@ def run_direct(spec):
                 wn = np.exp(rng.uniform(np.log(10), np.log(50000), size=m)).round()
                 non = pd.DataFrame(dict(last_election_results_turnout=wn,
                                         results_turnout=np.where(rng.random(m) < 0.3, wn * 2, 0.0)))
+                lab = int(rng.integers(0, 4))
+                if lab == 1:    # the frame is a boolean-mask slice of a larger one: labels are not 0..m-1
+                    non.index = np.sort(rng.choice(np.arange(3 * m + 5), size=m, replace=False))
+                elif lab == 2:  # sorted / sampled without reset_index: labels are a permutation
+                    non.index = rng.permutation(m)
+                elif lab == 3:
+                    non.index = [f"u{j}" for j in range(m)]
+                out["sets"]["direct_row_labels"] = [["0..m-1", "mask-slice", "permuted", "strings"][lab]]
                 rep = pd.DataFrame(dict(x=np.zeros(n_cal + 3)))
                 state["lo"] = rng.normal(-0.1, 0.05, size=m)
                 state["hi"] = rng.normal(0.1, 0.05, size=m)
